@@ -70,6 +70,10 @@ def run(F, rep, tier):
     union_find(F, rep)
     census(F, rep, contracts)
     cursor_total(F, rep)
+    single_visit(F, rep)
+    # the loader's work list terminates on import cycles: a file is marked visited before anything can `continue` past it
+    import c12
+    c12.visit_once(F, rep)
     unsigned_sub(F, rep)
     index_guard(F, rep)
     parser_progress(F, rep)
@@ -1265,3 +1269,206 @@ def positions_of(n):
         return (int(l), int(c))
     except (AttributeError, ValueError):
         return (0, 0)
+
+
+# --------------------------------------------------------------------------- one visit per node
+
+VISITOR_ARG_TYPES = ("name_resolution::Expression", "name_resolution::Statement", "sylt_parser::expression::Expression",
+                     "sylt_parser::statement::Statement", "sylt_parser::Expression", "sylt_parser::Statement",
+                     "name_resolution::IfBranch", "name_resolution::CaseBranch")
+ITER_ADAPTORS = {"iter", "iter_mut", "into_iter", "enumerate", "rev", "zip", "skip", "take", "peekable", "cloned", "copied", "by_ref",
+                 "as_ref", "as_mut", "unwrap", "clone", "borrow", "deref", "as_slice", "as_deref", "to_vec", "chain", "filter"}
+ELEMENT_SELECTORS = {"last", "first", "get", "next", "last_mut", "first_mut", "get_mut", "nth",
+                     "find", "max_by_key", "min_by_key", "next_back", "peek"}
+
+
+def _pat_paths(p, prefix=()):
+    """[(binding hid, path)] - the position of every binding inside a pattern"""
+    out = []
+    if not isinstance(p, dict):
+        return out
+    k = p.get("k")
+    if k == "Binding":
+        out.append((p["hid"], prefix))
+        if p.get("sub"):
+            out += _pat_paths(p["sub"], prefix)
+    elif k == "Struct":
+        v = last(norm_path(p.get("path")) or "?")
+        for f in p["fields"]:
+            out += _pat_paths(f["pat"], prefix + ("%s.%s" % (v, f["name"]),))
+    elif k == "TupleStruct":
+        v = last(norm_path(p.get("path")) or "?")
+        for i, x in enumerate(p["pats"]):
+            # Some(x) / Ok(x) / &x look through: they select nothing inside the node
+            out += _pat_paths(x, prefix if v in ("Some", "Ok", "Err") else prefix + ("%s.%d" % (v, i),))
+    elif k == "Tuple":
+        for i, x in enumerate(p["pats"]):
+            out += _pat_paths(x, prefix + ("#%d" % i,))
+    elif k == "Or":
+        for x in p["pats"]:
+            out += _pat_paths(x, prefix)
+    elif k in ("Ref", "Box", "Deref", "GuardPat"):
+        out += _pat_paths(p["pat"], prefix)
+    elif k == "Slice":
+        for x in p["before"] + ([p["mid"]] if p.get("mid") else []) + p["after"]:
+            out += _pat_paths(x, prefix + ("*",))
+    return out
+
+
+def single_visit(F, rep, rule="RE-CHECK"):
+    """A pass that visits a child twice on one path does the whole work below that child twice - and the child can contain
+    the construct that is being visited (a block whose last statement is an `if` whose block ends in an `if` ..), so every
+    nesting level doubles the time: 2^depth for a program that is only `depth` lines long.  For every function of the type
+    checker, the resolver and the lowering that hands syntax nodes to a visiting function: no two such calls on one path
+    receive the same node or a node and one of its parts."""
+    prefixes = ["sylt_compiler::typechecker::TypeChecker::", "sylt_compiler::name_resolution::Resolver::",
+                "sylt_compiler::intermediate::IRCodeGen::", "sylt_compiler::dependency::"]
+    visiting = set()
+    for pre in prefixes:
+        for fn in F.fns_in(pre):
+            if any(any(t in prm["ty"] for t in VISITOR_ARG_TYPES) for prm in fn["params"]):
+                visiting.add(fn["_path"])
+    # .. of which only those matter that walk on into the node: a function that can reach a cycle of visiting functions
+    graph = {}
+    for p_ in visiting:
+        graph[p_] = {callee(c) for c in nodes(fn_body(F.fns[p_])) if c.get("k") in ("MethodCall", "Call") and callee(c) in visiting}
+
+    def reach(a):
+        seen_, todo = set(), list(graph[a])
+        while todo:
+            q = todo.pop()
+            if q not in seen_:
+                seen_.add(q)
+                todo += list(graph[q])
+        return seen_
+    reachable = {p_: reach(p_) for p_ in visiting}
+    cyclic = {p_ for p_ in visiting if p_ in reachable[p_]}
+    visiting = {p_ for p_ in visiting if p_ in cyclic or reachable[p_] & cyclic}
+    rep.ob(rule, "visiting-functions", len(visiting) >= 10,
+           "%d functions take a syntax node and recurse into it (%s ..)" % (len(visiting), ", ".join(sorted(last(v, 2) for v in visiting)[:6])),
+           sites=len(visiting))
+    nf = npairs = 0
+    for pre in prefixes:
+        for fn in F.fns_in(pre):
+            body = fn_body(fn)
+            src = {}     # hid -> (source expression, path inside it, "each" when the binding ranges over the elements)
+            par = {}
+            for x, parents in walk(body):
+                par[id(x)] = parents
+                k = x.get("k")
+                if k == "Let" and x.get("init") is not None:
+                    for h, pth in _pat_paths(x["pat"]):
+                        src[h] = (x["init"], pth, False)
+                elif k == "LetCond":
+                    for h, pth in _pat_paths(x["pat"]):
+                        src[h] = (x["init"], pth, False)
+                elif k == "Match":
+                    for a in x["arms"]:
+                        for h, pth in _pat_paths(a["pat"]):
+                            src[h] = (x["scrut"], pth, False)
+                elif k == "ForLoop":
+                    for h, pth in _pat_paths(x["pat"]):
+                        src[h] = (x["iter"], pth, True)
+                elif k == "MethodCall":
+                    for a in x["args"]:
+                        a0 = peel(a)
+                        if isinstance(a0, dict) and a0.get("k") == "Closure":
+                            for prm in a0.get("params", []):
+                                for h, pth in _pat_paths(prm.get("pat", prm) if isinstance(prm, dict) else prm):
+                                    src[h] = (x["recv"], pth, True)
+
+            def root(e, depth=0):
+                """(root hid | None, selector path)"""
+                e = peel(e)
+                if not isinstance(e, dict) or depth > 40:
+                    return None, ()
+                k = e.get("k")
+                if k == "Path" and e.get("res") == "Local":
+                    if e["hid"] in src:
+                        s, pth, each = src[e["hid"]]
+                        r, sel = root(s, depth + 1)
+                        # positional parts of an iterator's tuple items (enumerate / zip) select nothing inside a node; the two
+                        # halves of a split (split_last / split_first / split_at) are disjoint parts of the list
+                        if not (sel and sel[-1] == "split"):
+                            pth = tuple(x_ for x_ in pth if not x_.startswith("#"))
+                        return r, sel + (("*",) if each else ()) + pth
+                    return e["hid"], ()
+                if k == "MethodCall":
+                    if e["m"] in ITER_ADAPTORS:
+                        return root(e["recv"], depth + 1)
+                    if e["m"] in ELEMENT_SELECTORS:
+                        r, sel = root(e["recv"], depth + 1)
+                        return r, sel + ("*",)
+                    if e["m"] in ("pop", "remove", "swap_remove", "pop_front", "pop_back", "split_off", "drain"):
+                        # taken out of the list: not among the elements a later iteration sees
+                        r, sel = root(e["recv"], depth + 1)
+                        return r, sel + ("taken:%s" % line_of(e),)
+                    if e["m"] in ("split_last", "split_first", "split_at", "split_last_mut", "split_first_mut"):
+                        r, sel = root(e["recv"], depth + 1)
+                        return r, sel + ("split",)
+                    return None, ()
+                if k == "Field":
+                    r, sel = root(e["e"], depth + 1)
+                    return r, sel + (".%s" % e["name"],)
+                if k == "Index":
+                    r, sel = root(e["e"], depth + 1)
+                    return r, sel + ("*",)
+                if k == "Try":
+                    return root(e["e"], depth + 1)
+                return None, ()
+
+            calls = []
+            for x, parents in walk(body):
+                if x.get("k") in ("MethodCall", "Call") and callee(x) in visiting:
+                    for a in x["args"]:
+                        t = (a.get("ty") or "") if isinstance(a, dict) else ""
+                        if any(v in t for v in VISITOR_ARG_TYPES):
+                            r, sel = root(a)
+                            if r is not None:
+                                calls.append((x, parents, r, sel))
+            if not calls:
+                continue
+            nf += 1
+            seen = set()
+            for i in range(len(calls)):
+                for j in range(i + 1, len(calls)):
+                    a, pa, ra, sa = calls[i]
+                    b, pb, rb, sb = calls[j]
+                    if ra != rb:
+                        continue
+                    short, long_ = (sa, sb) if len(sa) <= len(sb) else (sb, sa)
+                    if long_[:len(short)] != short:
+                        continue
+                    if _exclusive(pa + (a,), pb + (b,)):
+                        continue
+                    npairs += 1
+                    key = "%s|%s+%s|%s" % (last(fn["_path"], 2), last(callee(a)), last(callee(b)), "/".join(long_) or "same-node")
+                    if key in seen:
+                        continue
+                    seen.add(key)
+                    rep.ob(rule, key, False,
+                           "%s hands the same part of the tree to a visiting function twice on one path: %s(%s) at line %s and %s(%s) at "
+                           "line %s. Whatever is nested below is processed twice at every level: a block that ends in an `if` whose "
+                           "block ends in an `if` .. takes 2^depth steps (depth 20: 6 s, depth 30: hours, for 60 short lines)" % (
+                               last(fn["_path"], 2), last(callee(a)), "/".join(sa) or ".", line_of(a).split(":")[-2], last(callee(b)),
+                               "/".join(sb) or ".", line_of(b).split(":")[-2]), line_of(b))
+            rep.ob(rule, "%s|calls" % last(fn["_path"], 2), True, "%d visiting calls compared pairwise" % len(calls), sites=len(calls))
+    rep.floor(rule, "functions that hand syntax nodes to visiting functions", nf, 15)
+
+
+def _exclusive(pa, pb):
+    """two nodes lie in different arms of one match / different branches of one if (or one is in a closure/loop that the
+    other is not - still the same path, so not exclusive)"""
+    n = 0
+    while n < len(pa) and n < len(pb) and pa[n] is pb[n]:
+        n += 1
+    if n == 0 or n >= len(pa) or n >= len(pb):
+        return False
+    anc = pa[n - 1]
+    ca, cb = pa[n], pb[n]
+    if anc.get("k") == "Match":
+        arms = anc["arms"]
+        return any(ca is a_ for a_ in arms) and any(cb is a_ for a_ in arms)
+    if anc.get("k") == "If":
+        return (ca is anc.get("t") and cb is anc.get("e")) or (ca is anc.get("e") and cb is anc.get("t"))
+    return False
